@@ -132,6 +132,24 @@ def assigns(e):
     if k == 'set': return {e[1]} | assigns(e[2])
 
 
+def lam_assigns(e, inside=False):
+    """names assigned inside a lambda body: such an assignment happens when (and as often as) the lambda is called"""
+    k = e[0]
+    if k in ('num', 'unit', 'id'): return set()
+    if k in ('par', 'neg'): return lam_assigns(e[1], inside)
+    if k == 'bop': return lam_assigns(e[2], inside) | lam_assigns(e[3], inside)
+    if k in ('app', 'appfn', 'appmul', 'seq'): return lam_assigns(e[1], inside) | lam_assigns(e[2], inside)
+    if k == 'fn': return lam_assigns(e[2], True)
+    if k == 'set': return ({e[1]} if inside else set()) | lam_assigns(e[2], inside)
+
+
+def has_app(e):
+    k = e[0]
+    if k in ('num', 'unit', 'id'): return False
+    if k in ('app', 'appfn', 'appmul'): return True
+    return any(has_app(x) for x in e[1:] if isinstance(x, tuple))
+
+
 def redexes(e, path=()):
     """paths to nodes of the form (app|appfn) (par (fn x b)) a"""
     out = []
@@ -939,6 +957,11 @@ def check(c):
         oa, ob = il[i], il[nrt + i]
         rep = {'law': 'roundtrip', 'P': a_, 'P_with_roundtrip': b_}
         c.note_case('rt:' + '|'.join(b_), True, 'roundtrip-pair')
+        if crashed(oa) and 'stack-overflow' in oa:
+            # the history itself exhausts the stack without any reload (a stored lambda that refers to its own global
+            # name): C06's listed finding stack-exhaustion-recursive-global, nothing the reload did
+            c.dist['roundtrip-baseline-stack-exhaustion'] = c.dist.get('roundtrip-baseline-stack-exhaustion', 0) + 1
+            continue
         if crashed(oa) or crashed(ob):
             c.violation('roundtrip-pair-crashed', dict(rep, kind='impl-crash', impl=ob[:120])); continue
         pa, pb = parse_sx(oa), parse_sx(ob)
@@ -983,6 +1006,14 @@ def check(c):
         if any(assigns(u) & (idents(e) | {name}) for u in uses):
             continue
         if not all(capture_free(name, idents(e), u) for u in uses):
+            continue
+        # ... and the right-hand side must be pure (premise of C09_let_subst): a stored lambda whose body assigns runs
+        # that assignment whenever it is called, so it must neither touch what the right-hand side reads (or the name
+        # itself), nor be callable from the right-hand side (evaluated once in P, at every use in P_substituted)
+        hidden = set()
+        for p_ in pre + [e] + uses:
+            hidden |= lam_assigns(p_)
+        if hidden & (idents(e) | {name}) or (hidden and has_app(e)):
             continue
         p1 = pre + [setv(name, e)] + uses
         p2 = pre + [gsubst(name, par(e), u) for u in uses]
